@@ -552,6 +552,19 @@ def formula_purity(chk, P):
     chk.ob("C12.O4", "in a sequence of %d calls (one argument changed at a time, repeats, a second form in between) every evaluation sees "
                      "exactly that call's arguments" % len(seq), not bad, site=site, found=bad[:3] or None,
            expect="r, A, n bound to the call's own arguments", key="C12.O4|unconditional-binding")
+    # 1b. a call with fewer (or more) arguments than the signature - a custom form invoked from another formula with the wrong
+    #     number of arguments - must not be evaluated with whatever an earlier call left bound to the missing names
+    for label, args in (("one argument too few", ("r5", "a5")), ("one argument too many", ("r5", "a5", "n5", "x5"))):
+        n0 = len(M.expression_of(fa).evaluations) if M.expression_of(fa) is not None else 0
+        try:
+            Ib.call(fa, [Num(ep.sym(x)) for x in args], {})
+            outcome_ = "evaluated"
+        except RaiseSignal:
+            outcome_ = "refused"
+        ex = M.expression_of(fa)
+        evaluated = ex is not None and len(ex.evaluations) > n0
+        chk.ob("C12.O4", "a call of f(r, A, n) with %s is refused, not evaluated with values left over from earlier calls" % label,
+               outcome_ == "refused" and not evaluated, site=site, found=outcome_, expect="refused", key="C12.O4|arity|%s" % label)
     # 2. no instance state written in __call__ apart from the lazily created expression: the first call may add attributes
     #    that hold the parsed expression (a write-once cache); a second call adds and changes nothing
     I0 = F.make_interp(P)
